@@ -9,6 +9,16 @@ TRUST = ("Trusted base: clang 14 front end and its debug info, the LLVM-14 IR re
          "the rule tables documented in DESIGN.md. ")
 
 CLAIMS = {
+    "C12": dict(
+        category="other",
+        technique="static analysis: interval abstract interpretation with guard facts over the receiver thread's call tree (table subscripts, packet reads), length-guard dominance for message field reads, NULL-guard dominance for lookup results, lockset balance of receiver contexts, loop-progress rule",
+        text=("Decides over all paths of everything the receiver thread executes: variable subscripts of fixed tables/arrays in range; packet reads below the packet size; "
+              "message field reads covered by a length guard (none exist: 25 cases + 3 unbounded address scans are recorded known findings, each demonstrated under ASan); lookup "
+              "results dereferenced only behind NULL tests (5 configuration-derived sites listed with reasons); receiver contexts return with their entry lockset; receive loops "
+              "read or count. It does not explore byte streams: these are the bounds any stream would have to violate."),
+        note=TRUST + "Known findings: 28 entries (C12-LEN per dispatcher case, C12-SCAN per helper) in known_findings.json; demonstration in findings/c12_demo.c.",
+        design="DESIGN.md section 4, C12",
+    ),
     "C02": dict(
         category="other",
         technique="static analysis: guard-dominance (CRC gate), same-block fold pairing, path rules (raw-byte tests, exactly-one dispatch, CRC-independent return), interval abstract interpretation (bounds, progress)",
